@@ -57,6 +57,28 @@ func ruleValidateRefs(c *Ctx) {
 	structFirst := true
 	sim := c.P.Simulate(fn, SimConfig{MaxPaths: 1 << 18, MaxVisits: 2}, func(pr *PathResult) {
 		n++
+		// name sets: m[x.Name] = … followed by a membership test m[ref]
+		sets := map[string]string{}
+		for _, e := range pr.Events {
+			if e.Kind == "mapupdate" && e.Addr != nil && len(e.Args) == 1 {
+				sets[e.Addr.Key()] = strings.TrimPrefix(refPath(e.Args[0]), ".")
+			}
+		}
+		for _, l := range pr.Conds {
+			l.Atom.walk(func(x *Term) bool {
+				if x.Op == "lookup" && len(x.Args) == 2 {
+					if member, ok := sets[x.Args[0].Key()]; ok {
+						a := strings.TrimPrefix(refPath(x.Args[1]), ".")
+						for _, k := range []string{a + "|" + member, member + "|" + a} {
+							if _, ok := want[k]; ok {
+								seenPairs[k] = true
+							}
+						}
+					}
+				}
+				return true
+			})
+		}
 		for _, l := range pr.Conds {
 			if l.Atom.Op == "eq" {
 				a, b := strings.TrimPrefix(refPath(l.Atom.Args[0]), "."), strings.TrimPrefix(refPath(l.Atom.Args[1]), ".")
